@@ -10,6 +10,7 @@ import (
 	"runtime/pprof"
 	"strconv"
 	"strings"
+	"time"
 
 	"rtpcheck/core"
 	"rtpcheck/props"
@@ -57,12 +58,15 @@ func main() {
 		os.Exit(2)
 	}
 	absRepo, _ := filepath.Abs(*repo)
+	t0 := time.Now()
 	prog, err := core.Load(absRepo)
+	loadDur := time.Since(t0)
 	known, kerr := core.LoadKnown(filepath.Join(*verif, "known_findings.json"))
 	exit := 0
 	for _, id := range ids {
 		run, ok := props.Registry[id]
 		rep := core.NewReport(id, *tier, seed, known, spec.Assumed)
+		rep.Start = rep.Start.Add(-loadDur) // wall time includes loading and type-checking /repo
 		rep.CheckerCmd = fmt.Sprintf("%s -prop %s -tier %s -repo %s", filepath.Join(*verif, "bin/rtpcheck"), id, *tier, absRepo)
 		rep.Trusted = append(rep.Trusted, spec.TrustedBase...)
 		rep.Assumes = append(rep.Assumes, spec.CommonAssumptions...)
